@@ -7,6 +7,7 @@ sequence `faults` of attempt outcomes (retried failure / final failure / ignored
 an ARBITRARY schedule `ops` of producer steps, consumer polls and the drop of the pager.
 -/
 import ScyllaVerif.Proofs.Pager
+import ScyllaVerif.Model.PagerExec
 
 namespace ScyllaVerif.Props.C07
 open ScyllaVerif.Pager
@@ -578,5 +579,114 @@ theorem ignore_truncates_silently :
     ∃ pages faults ops, (run (init pages faults) ops).ended = true ∧ (run (init pages faults) ops).errs = [] ∧
       (run (init pages faults) ops).rx = .alive ∧ (run (init pages faults) ops).delivered ≠ servedRows pages :=
   ⟨[([0], some [1]), ([1], none)], [.ok, .ignore], [.prod, .prod, .poll, .poll], by decide⟩
+
+/-! ### constructor paths: failure before the first fetch, failure / cancellation of the first fetch -/
+
+/-- `PartitionKeyError` (the constructor fails before the first fetch): under every schedule nothing is
+ever sent, delivered or built. -/
+theorem partition_key_error_sends_nothing (pages : List Page) (faults : List Attempt) (e : String)
+    (ops : List Op) : run (initFailed pages faults e) ops = initFailed pages faults e := by
+  induction ops with
+  | nil => rfl
+  | cons op ops ih =>
+    have : step (initFailed pages faults e) op = initFailed pages faults e := by
+      cases op <;> simp [step, stepProd, stepPoll, stepDrop, initFailed]
+    rw [run_cons, this]; exact ih
+
+/-- Once the constructor has failed - the first fetch failed for good, the session's `USE` after a
+SetKeyspace first response failed, or the caller dropped the constructor future while the first response
+was outstanding (all three are a final failure of the first attempt for the page loop) - no request is
+ever sent again and nothing is ever delivered: no pager, no background task. -/
+theorem constructor_failure_sends_nothing_more (pages : List Page) (faults : List Attempt) (ops more : List Op)
+    (h : (run (init pages faults) ops).ctorErr.isSome = true) :
+    (run (run (init pages faults) ops) more).log = (run (init pages faults) ops).log ∧
+    (run (run (init pages faults) ops) more).delivered = [] ∧
+    (run (run (init pages faults) ops) more).errs = (run (init pages faults) ops).errs := by
+  have inv := inv_reachable pages faults ops
+  generalize run (init pages faults) ops = s at *
+  have hc := inv.c.ctor h
+  have hu := inv.c.unbuilt hc.1
+  have hq := quiet_run (s0 := s) ⟨hc.2, hu.2.2.2.1, hu.2.2.1, rfl, rfl, rfl⟩ more
+  exact ⟨hq.log, by rw [hq.delivered]; exact hu.2.1, hq.errs⟩
+
+example :
+    let s := run (init [([0, 1], some [1]), ([2], none)] (connAttempts false ['u', 'X']))
+      (List.replicate 6 [Op.prod, Op.poll]).flatten
+    s.ctorErr = some "Cancelled" ∧ s.log = [(0, none), (0, none)] ∧ s.delivered = [] := by decide
+
+/-! ### C07 × C06: page fetches through the execution core; failover to another node
+
+One page fetch is one run of the request-execution core (`Model/Exec.lean`, C06's model of
+`run_request_no_side_effects`): `PagerExec.attemptsOfTrace` turns its trace into the page loop's attempt
+outcomes, one per request sent, whatever target each attempt went to. -/
+
+open ScyllaVerif.PagerExec in
+/-- One entry per request the execution core sent (when it sent any). -/
+theorem requests_of_trace (tr : ScyllaVerif.Exec.Trace) (h : 0 < tr.attempts.length) :
+    (attemptsOfTrace tr).length = tr.attempts.length := by
+  simp [attemptsOfTrace]; omega
+
+open ScyllaVerif.PagerExec in
+/-- A fetch that completed - on whichever target, after however many retries on the same or on OTHER
+nodes - is, for the page loop, retries followed by a success. -/
+theorem completed_fetch_is_retries_then_ok (tr : ScyllaVerif.Exec.Trace) (t : Nat)
+    (h : tr.final = .completed t) :
+    attemptsOfTrace tr = List.replicate (tr.attempts.length - 1) Attempt.retry ++ [Attempt.ok] := by
+  simp [attemptsOfTrace, h, lastOf]
+
+open ScyllaVerif.PagerExec in
+/-- A fetch the execution core gave up on (`DontRetry`, or the plan ran out of targets) ends, for the page
+loop, in a final failure carrying that error. -/
+theorem failed_fetch_is_final_failure (tr : ScyllaVerif.Exec.Trace) (e : ScyllaVerif.Retry.Err)
+    (h : tr.final = .stopped e ∨ tr.final = .exhausted (some (.attempt e))) :
+    attemptsOfTrace tr = List.replicate (tr.attempts.length - 1) Attempt.retry ++ [Attempt.fail (errLabel e)] := by
+  rcases h with h | h <;> simp [attemptsOfTrace, h, lastOf]
+
+open ScyllaVerif.PagerExec in
+/-- Failover keeps the paging state: for EVERY sequence of execution-core traces (any plan, any targets,
+any retry policy, any errors), every request the pager sends for page `k` - the first attempt on the
+previous coordinator as well as the retries on other nodes - carries the state returned with page `k-1`;
+and all requests for the same page carry the same state. -/
+theorem failover_keeps_paging_state (pages : List Page) (traces : List ScyllaVerif.Exec.Trace) (ops : List Op) :
+    (∀ e ∈ (run (init pages (pageFaults traces)) ops).log, e.2 = stateBefore pages e.1) ∧
+    (∀ a ∈ (run (init pages (pageFaults traces)) ops).log, ∀ b ∈ (run (init pages (pageFaults traces)) ops).log,
+      a.1 = b.1 → a.2 = b.2) :=
+  ⟨paging_state_chain pages _ ops, (paging_requests_in_order pages _ ops).2.1⟩
+
+open ScyllaVerif.PagerExec in
+/-- Node switches lose nothing: if every page fetch eventually completed on some target, the stream
+yields exactly all rows, in order, once, and ends - for every script and every pattern of failovers. -/
+theorem failover_loses_nothing (pages : List Page) (traces : List ScyllaVerif.Exec.Trace) (n : Nat)
+    (hc : ∀ tr ∈ traces, ∃ t, tr.final = .completed t)
+    (hn : (pageFaults traces).length + 5 * pages.length + todoRows pages + 7 ≤ n) :
+    (runEager n (init pages (pageFaults traces))).delivered = servedRows pages ∧
+    (runEager n (init pages (pageFaults traces))).ended = true ∧
+    (runEager n (init pages (pageFaults traces))).errs = [] := by
+  have hf : ∀ a ∈ pageFaults traces, a = Attempt.ok ∨ a = Attempt.retry := by
+    intro a ha
+    simp only [pageFaults, List.mem_flatten, List.mem_map] at ha
+    obtain ⟨l, ⟨tr, htr, rfl⟩, hal⟩ := ha
+    obtain ⟨t, ht⟩ := hc tr htr
+    rw [completed_fetch_is_retries_then_ok tr t ht] at hal
+    rcases List.mem_append.mp hal with h | h
+    · right; exact (List.mem_replicate.mp h).2
+    · left; simpa using h
+  have := retries_lose_nothing pages (pageFaults traces) n hf hn
+  exact ⟨this.1, this.2.1, this.2.2.1⟩
+
+/-- Non-vacuity, with C06's model of the default retry policy on a 2-node plan: an idempotent page request
+answered `Overloaded` by the first node completes on the second one (a node switch), and the page loop
+sees one retried attempt; on a non-idempotent statement the same answer is final. -/
+example :
+    (ScyllaVerif.PagerExec.clusterFetch 2 true ['o']).final = .completed 1 ∧
+    ScyllaVerif.PagerExec.attemptsOfTrace (ScyllaVerif.PagerExec.clusterFetch 2 true ['o']) = [.retry, .ok] ∧
+    ScyllaVerif.PagerExec.attemptsOfTrace (ScyllaVerif.PagerExec.clusterFetch 2 false ['o']) = [.fail "DbError:4097"] ∧
+    ScyllaVerif.PagerExec.attemptsOfTrace (ScyllaVerif.PagerExec.clusterFetch 2 true ['o', 'o']) = [.retry, .fail "DbError:4097"] := by
+  decide
+
+example :
+    (runEager 60 (init [([0], some [1]), ([1], some [2]), ([2], none)]
+      (ScyllaVerif.PagerExec.clusterAttempts 3 true [['o'], ['b', 'R'], ['U']]))).delivered = [0, 1, 2] := by
+  decide
 
 end ScyllaVerif.Props.C07
